@@ -17,6 +17,7 @@ mod mipsref;
 mod ppcref;
 mod c04;
 mod c05;
+mod c06;
 mod a64ref;
 mod liftexec;
 mod c07;
@@ -48,6 +49,7 @@ fn make_check(prop: &str, tier: Tier) -> Option<Box<dyn Check>> {
         "C03" => Box::new(c03::C03::new(tier)),
         "C04" => Box::new(c04::C04::new(tier)),
         "C05" => Box::new(c05::C05::new(tier)),
+        "C06" => Box::new(c06::C06::new(tier)),
         "C07" => Box::new(c07::C07::new(tier)),
         "C08" => Box::new(c08::C08::new(tier)),
         "C09" => Box::new(c09::C09::new(tier)),
